@@ -316,6 +316,10 @@ def embeddings(chk):
     povms = [generate_qoperation("povm", n, c3) for n in ("z3", "01x3", "12y3", "z2")]
     mps = [generate_qoperation("mprocess", n, c3) for n in ("z3-type1", "z2-type1")]
     emb = QOperation.embed_qoperation_from_qutrits_to_qubits
+    # non-unitary qutrit channels (two or more Kraus operators): mixtures of catalogue unitaries and the depolarising channel
+    from quara.objects.gate import Gate, get_depolarizing_channel
+    gates = gates + [Gate(c3, 0.6 * gates[0].hs + 0.4 * gates[1].hs), Gate(c3, (gates[0].hs + gates[1].hs + gates[2].hs) / 3.0),
+                     get_depolarizing_channel(0.2, c3)]
     for st in states:
         for g in gates:
             for p in povms:
